@@ -10,12 +10,13 @@ class ReaderRunner:
     def __init__(self, quick, thorough, oracle, keep_growth=False, search=None, exact=True):
         self.fams = {'quick': quick, 'thorough': thorough}
         self.oracle = oracle
+        self.raw_oracle = engine.reader_oracle(oracle) if oracle else None
         self.keep_growth = keep_growth
         self.search_fams = search or thorough
         self.exact = exact
 
     def run(self, res, tier, seed, corpus):
-        engine.run_reader_families(res, self.fams[tier], seed, self.oracle, self.keep_growth, self.exact, corpus)
+        engine.run_reader_families(res, self.fams[tier], seed, self.raw_oracle, self.keep_growth, self.exact, corpus)
 
     def execute(self, cases):
         impl = run.run_impl(cases) or ['<harness died>'] * len(cases)
@@ -73,7 +74,7 @@ class ReaderRunner:
         """Oracle-only search on the thorough budget with fresh seeds (neighbourhood of the drift first)."""
         for rnd in range(2):
             r2 = engine.Result(res.prop)
-            engine.run_reader_families(r2, self.search_fams, seed + 7919 * (rnd + 1), self.oracle, self.keep_growth, exact=False)
+            engine.run_reader_families(r2, self.search_fams, seed + 7919 * (rnd + 1), self.raw_oracle, self.keep_growth, exact=False)
             res.evaluations += r2.evaluations
             if r2.oracle_failures:
                 return r2.oracle_failures[0]
@@ -180,4 +181,36 @@ PROPS['C09'] = dict(
     rule='recording policies (built-in, slowly growing, table-driven, refusing); request log compared exactly with the model '
          'and checked: chain of capacities, buffer-limit iff refused, request only when the record being parsed does not fit',
     assumptions=ASSUME_READER,
+)
+
+
+class SimpleRunner(ReaderRunner):
+    """Cases that are not reader histories (writers, iterators, policies, ...): raw oracle, no shrinking
+    beyond what the generator's small cases give."""
+
+    def __init__(self, quick, thorough, raw_oracle, exact=True):
+        self.fams = {'quick': quick, 'thorough': thorough}
+        self.oracle = None
+        self.raw_oracle = raw_oracle
+        self.keep_growth = True
+        self.search_fams = thorough
+        self.exact = exact
+
+    def minimise(self, case, msg, obs):
+        return case, msg, obs
+
+    def shrink_exact(self, case):
+        return case
+
+
+PROPS['C10'] = dict(
+    theorems=[],
+    runner=SimpleRunner(
+        quick=[('w_fa', 20000)],
+        thorough=[('w_fa', 300000)],
+        raw_oracle=oracles.writer_oracle),
+    rule='every sequence over {A,C} up to length 6 (thorough: 8) x wrap widths 1..5 x every chunking incl. empty chunks x all '
+         'FASTA writer entry points, plus random headers / id+description / sequences and records written back to back; output '
+         'compared byte-exactly with the model, parsed back with the real reader; non-trivial = inside the documented domain',
+    assumptions=['io::Write into a Vec<u8> never fails'],
 )
